@@ -60,12 +60,27 @@ def data(xs, kind="f64", junk=None):
     raise ValueError(kind)
 
 
+def fractional(ts):
+    return any(float(t) != int(t) for t in ts)
+
+
+def time_applicable(kind, ts):
+    """datetime64[s] and integer epoch carriers cannot hold sub-second instants."""
+    if fractional(ts):
+        return kind not in ("dt64s", "epoch_int")
+    return True
+
+
 def time(ts, kind="dt64ns"):
-    """ts: list of integer epoch seconds."""
-    base = np.array(ts, dtype="int64").astype("datetime64[s]")
+    """ts: list of epoch seconds (integers, or multiples of 1/8 s for sub-second axes)."""
+    if fractional(ts):
+        base = np.array([int(round(float(t) * 1000)) for t in ts], dtype="int64").astype("datetime64[ms]")
+        pyd = [dtm.datetime(1970, 1, 1) + dtm.timedelta(milliseconds=int(round(float(t) * 1000))) for t in ts]
+    else:
+        base = np.array(ts, dtype="int64").astype("datetime64[s]")
+        pyd = [dtm.datetime(1970, 1, 1) + dtm.timedelta(seconds=int(t)) for t in ts]
     if kind.startswith("dt64"):
         return base.astype(f"datetime64[{kind[4:]}]")
-    pyd = [dtm.datetime(1970, 1, 1) + dtm.timedelta(seconds=int(t)) for t in ts]
     if kind == "list_datetime":
         return pyd
     import pandas as pd
@@ -80,7 +95,7 @@ def time(ts, kind="dt64ns"):
     if kind == "series_utc":
         return pd.Series(pd.DatetimeIndex(base.astype("datetime64[ns]")).tz_localize("UTC"))
     if kind == "epoch_list":
-        return [int(t) for t in ts]
+        return [float(t) for t in ts] if fractional(ts) else [int(t) for t in ts]
     if kind == "epoch_int":
         return np.array(ts, dtype="int64")
     if kind == "epoch_float":
